@@ -9,7 +9,7 @@ PR = "crates/core/src/commands/prune.rs"
 CF = "crates/core/src/repofile/configfile.rs"
 CO = "crates/core/src/commands/config.rs"
 
-R_ERR = Rw("", "verr()", count=None, kind="err", why="RusticError construction (kind/message/context dropped)")
+R_ERR = Rw("", "verr()", count=None, kind="err", optional=True, why="RusticError construction (kind/message/context dropped)")
 R_ISQRT = Rw("self.current_size.integer_sqrt()", "vinteger_sqrt(self.current_size)", why="integer_sqrt crate (assumed floor-sqrt contract)")
 
 UNITS = [
